@@ -230,11 +230,15 @@ Lemma fd_in_enroll : forall cs fd rest,
   fd_step_stale cs (EIn ("enroll", AInt fd :: rest)) = Some (if f_dead cs then cs else fresh_fd cs fd).
 Proof. intros. unfold fresh_fd, owns. cbn. unfold fd_step. destruct (f_dead cs); reflexivity. Qed.
 
+Lemma fd_in_dial : forall cs fd rest,
+  fd_step_stale cs (EIn ("dial", AInt fd :: rest)) = Some (if f_dead cs then cs else fresh_fd cs fd).
+Proof. intros. unfold fresh_fd, owns. cbn. unfold fd_step. destruct (f_dead cs); reflexivity. Qed.
+
 Lemma fd_in_other : forall cs ln la,
-  ln <> "r" -> ln <> "accepted" -> ln <> "enroll" ->
+  ln <> "r" -> ln <> "accepted" -> ln <> "enroll" -> ln <> "dial" ->
   fd_step_stale cs (EIn (ln, la)) = Some cs.
 Proof.
-  intros cs ln la H1 H2 H3. cbn. unfold fd_step. destruct (f_dead cs); [reflexivity|].
+  intros cs ln la H1 H2 H3 H4. cbn. unfold fd_step. destruct (f_dead cs); [reflexivity|].
   sdef ln.
 Qed.
 
@@ -252,7 +256,10 @@ Proof.
     + destruct (String.eqb_spec ln "enroll") as [->|H3].
       * destruct la as [|[fd|b|nm] la]; try (cbn; unfold fd_step; destruct (f_dead cs); eexists; reflexivity).
         all: try (rewrite fd_in_enroll; eauto).
-      * rewrite fd_in_other; eauto.
+      * destruct (String.eqb_spec ln "dial") as [->|H4].
+        -- destruct la as [|[fd|b|nm] la]; try (cbn; unfold fd_step; destruct (f_dead cs); eexists; reflexivity).
+           all: try (rewrite fd_in_dial; eauto).
+        -- rewrite fd_in_other; eauto.
 Qed.
 
 Lemma pstep_in : forall m cs l,
@@ -338,7 +345,7 @@ Lemma quiet_cb_udp : forall cid src, quiet (obs "cb" (ASym "udp" :: AInt cid :: 
 Proof. intros; quiet_tac. Qed.
 
 Definition quiet_ghost (what : string) : Prop :=
-  In what ["sub"; "hand"; "fail"; "del"; "udpconn"; "openreply"; "openreply-end"].
+  In what ["sub"; "hand"; "fail"; "del"; "udpconn"; "openreply"; "openreply-end"; "regcb"].
 
 Lemma quiet_g : forall what cid bs, quiet_ghost what -> quiet ("g", [ASym what; AInt cid; ABytes bs]).
 Proof.
